@@ -48,6 +48,8 @@ pub fn play_game_uci() {
             "position" => {
                 draw_table.clear();
                 board = play_out_position(&commands, &zobrist_hasher, &mut draw_table);
+                #[cfg(walleye_verif)]
+                crate::verif_hooks::event_position(&board, &draw_table);
                 info!("{}", board.simple_board());
             }
             "go" => {
@@ -80,6 +82,8 @@ fn find_and_play_best_move(
 ) -> BoardState {
     let time_to_move_ms = parse_go_command(commands).calculate_time_slice(board.to_move);
     let mut best_move = None;
+    #[cfg(walleye_verif)]
+    crate::verif_hooks::event_go(board, time_to_move_ms);
 
     let (tx, rx) = mpsc::channel();
     let clone = board.clone();
@@ -89,12 +93,16 @@ fn find_and_play_best_move(
     // also add a guard to ensure we at least get a move from the search thread
     while !out_of_time(start, time_to_move_ms) || best_move.is_none() {
         if let Ok(b) = rx.try_recv() {
+            #[cfg(walleye_verif)]
+            crate::verif_hooks::event_recv(&b);
             best_move = Some(b);
         } else {
             thread::sleep(Duration::from_millis(1));
         }
     }
     let board = best_move.unwrap();
+    #[cfg(walleye_verif)]
+    crate::verif_hooks::event_exit(&board, out_of_time(start, time_to_move_ms));
     send_best_move_to_gui(&board);
     info!("{}", board.simple_board());
     board
@@ -324,8 +332,36 @@ fn send_best_move_to_gui(board: &BoardState) {
 }
 
 pub fn send_to_gui(message: &str) {
+    #[cfg(walleye_verif)]
+    if crate::verif_hooks::capture(message) {
+        return;
+    }
     println!("{}", message);
     info!("ENGINE >> {}", message);
+}
+
+#[cfg(walleye_verif)]
+pub fn verif_make_move(board: &mut BoardState, player_move: &str, zobrist_hasher: &ZobristHasher) {
+    make_move(board, player_move, zobrist_hasher)
+}
+
+#[cfg(walleye_verif)]
+pub fn verif_play_out_position(
+    commands: &[&str],
+    zobrist_hasher: &ZobristHasher,
+    draw_table: &mut DrawTable,
+) -> BoardState {
+    play_out_position(commands, zobrist_hasher, draw_table)
+}
+
+#[cfg(walleye_verif)]
+pub fn verif_parse_go_command(commands: &[&str]) -> GameTime {
+    parse_go_command(commands)
+}
+
+#[cfg(walleye_verif)]
+pub fn verif_send_best_move_to_gui(board: &BoardState) {
+    send_best_move_to_gui(board)
 }
 
 pub fn read_from_gui() -> String {
